@@ -3,7 +3,7 @@
    error class or whose bytes do not parse (SFetchFail), a tile read that fails (STileFail). *)
 From Coq Require Import NArith List.
 Import ListNotations.
-From PM Require Import Model.Server Proofs.Server Proofs.ServerExec Proofs.ServerCoalesce.
+From PM Require Import Model.Server Proofs.Server Proofs.ServerExec Proofs.ServerCoalesce Proofs.ServerProgress.
 Open Scope N_scope.
 
 Section C10.
@@ -34,9 +34,20 @@ Proof. intros s k cv R Hin. exact (E12 s (reach_co root_off_nz s R) k cv Hin). Q
    queued for the loop, so the waiters are answered by the next loop message for that key whatever the outcome of the bucket call *)
 Theorem C10_waiters_served : forall s k, reach s -> In k (map fst (inflight s)) -> In k (fetches s) \/ In k (map fst (respq s)).
 Proof. intros s k R Hin. exact (E11 s (reach_co root_off_nz s R) k Hin). Qed.
+(* bounded completion, the safety half: a handler that waits for a loop message is never forgotten - its message is queued for the loop, or
+   it is registered with a key whose fetch is outstanding or whose response is queued; every other handler is blocked in a bucket call of
+   its own. So as long as bucket calls return (with data or with any error) and the loop runs, every request completes. *)
+Theorem C10_no_request_forgotten : forall s rid h m, reach s -> In (rid, h) (handlers s) -> waiting h = Some m ->
+  (exists k p, In (m, rid, k, p) (reqq s)) \/
+  (exists k ws, In (k, ws) (inflight s) /\ In (m, rid) ws /\ (In k (fetches s) \/ In k (map fst (respq s)))).
+Proof.
+  intros s rid h m R Hin Hw. destruct (P3 s [] (reach_pr s R) rid h m Hin Hw) as [[H|[k [ws [H1 H2]]]]|[]]; [left; exact H|right].
+  exists k, ws. split; [exact H1|]. split; [exact H2|]. apply (E11 s (reach_co root_off_nz s R)). apply (in_map fst) in H1. exact H1.
+Qed.
 End C10.
 
 Print Assumptions C10_no_lie.
 Print Assumptions C10_failures_not_cached.
 Print Assumptions C10_only_ok_cached.
 Print Assumptions C10_waiters_served.
+Print Assumptions C10_no_request_forgotten.
